@@ -95,19 +95,26 @@ def opAdmits : List String → String
         match scan cs with
         | none => "raw InvalidVersion"
         | some cv =>
-          if sp.op == .arbitrary then
-            encB (Pep440.admits sp.op ⟨0, [], none, none, none, none⟩ false sp.ver cv)
-          else
-            let wild := (sp.op == .eq || sp.op == .ne) && endsWith sp.ver [46, 42]
-            let vtext := if wild then sp.ver.take (sp.ver.length - 2) else sp.ver
-            match scan vtext with
-            | none => "raw InvalidVersion"
-            | some v => encB (Pep440.admits sp.op v wild sp.ver cv))
+          match Pep440.readClause sp with
+          | none => "unreadable-clause"
+          | some (v, wild) => encB (Pep440.admits sp.op v wild sp.ver cv))
     | _, _ => "bad-arg"
   | _ => "bad-op"
 
+/-- `spec.clause s`: does `Specifier(s)` parse, and is what it stores a clause the reference semantics can read
+(`Pep440.readClause`, the hypothesis of theorem `C03.contains_eq_spec`)?  `ok <wildcard?>` -/
+def opClause : List String → String
+  | [a] => match decS a with
+    | some s => (match parseSpec s with
+      | none => "err InvalidSpecifier"
+      | some sp => match Pep440.readClause sp with
+        | none => "unreadable-clause"
+        | some (_, wild) => "ok " ++ encB wild)
+    | none => "bad-arg"
+  | _ => "bad-op"
+
 def ops : List (String × (List String → String)) :=
-  [ ("s.spec.admits", opAdmits), ("spec.parse", opParse), ("spec.pre", opPre), ("spec.contains", opContains), ("spec.filter", opFilter),
+  [ ("s.spec.admits", opAdmits), ("spec.clause", opClause), ("spec.parse", opParse), ("spec.pre", opPre), ("spec.contains", opContains), ("spec.filter", opFilter),
     ("spec.split", opSplit), ("spec.pad", opPad), ("spec.canon", opCanon) ]
 
 end DriverSpec
